@@ -161,6 +161,7 @@ func vTempDir() string {
 }
 
 func vFSFault(op string, nth int)             {} // engine only: the nth call of op fails
+func vFSShortWrite(nth, k int)                {} // engine only: the nth write accepts k bytes, then fails with ENOSPC
 func vFSCalls(op string) int                  { return 0 }
 func vFSMutations() int                       { return 0 }
 func vCrashAt(k int, short int, after func()) {} // engine only
